@@ -41,10 +41,11 @@ def childOut (ts : Types) (u : UTab) (froute : List Nat) (p : FieldDesc × Nat) 
   if !nm.isEmpty || !sf.embedded || !kindIsStruct ts ft then []
   else [(froute ++ [i], ft)]
 
-/-- queue a node for the next level unless its type is already queued; count it -/
-def enq (q : List Node × List (Nat × Nat)) (c : Node) : List Node × List (Nat × Nat) :=
+/-- queue a node for the next level unless its type is already queued; count it (`d`: the parent type was
+    itself reached more than once, so the count saturates at 2) -/
+def enq (d : Bool) (q : List Node × List (Nat × Nat)) (c : Node) : List Node × List (Nat × Nat) :=
   (if (q.2.lookup c.2).getD 0 == 0 then q.1 ++ [c] else q.1,
-   (c.2, (q.2.lookup c.2).getD 0 + 1) :: q.2.filter (·.1 != c.2))
+   (c.2, if d then 2 else (q.2.lookup c.2).getD 0 + 1) :: q.2.filter (·.1 != c.2))
 
 def dupl (d : Bool) (l : List AField) : List AField := if d then l.flatMap (fun x => [x, x]) else l
 
@@ -78,8 +79,8 @@ abbrev BState := List AField × List Node × List (Nat × Nat) × List Nat
 def outerStep (ts : Types) (u : UTab) (count : List (Nat × Nat)) (acc : BState) (c : Node) : BState :=
   if acc.2.2.2.contains c.2 then acc else
   (acc.1 ++ dupl (decide ((count.lookup c.2).getD 0 > 1)) (fieldsOf ts u c),
-   (List.foldl enq (acc.2.1, acc.2.2.1) (childrenOf ts u c)).1,
-   (List.foldl enq (acc.2.1, acc.2.2.1) (childrenOf ts u c)).2,
+   (List.foldl (enq (decide ((count.lookup c.2).getD 0 > 1))) (acc.2.1, acc.2.2.1) (childrenOf ts u c)).1,
+   (List.foldl (enq (decide ((count.lookup c.2).getD 0 > 1))) (acc.2.1, acc.2.2.1) (childrenOf ts u c)).2,
    c.2 :: acc.2.2.2)
 
 /-- the inner fold of `scanLevel` over the fields of one struct -/
@@ -104,11 +105,12 @@ theorem inner_fold (ts : Types) (u : UTab) (count : List (Nat × Nat)) (froute :
           (fields ++ (if dup then [fld, fld] else [fld]), next, nextCount, vis)
         else
           let c := (nextCount.lookup ft).getD 0
-          let nextCount' := (ft, c + 1) :: nextCount.filter (·.1 != ft)
+          let c' := if (count.lookup fty).getD 0 > 1 then 2 else c + 1
+          let nextCount' := (ft, c') :: nextCount.filter (·.1 != ft)
           (fields, if c == 0 then next ++ [(route, ft)] else next, nextCount', vis)) (fields, next, nextCount, vis)
     = (fields ++ dupl (decide ((count.lookup fty).getD 0 > 1)) (l.flatMap (fieldOut ts u froute)),
-       (List.foldl enq (next, nextCount) (l.flatMap (childOut ts u froute))).1,
-       (List.foldl enq (next, nextCount) (l.flatMap (childOut ts u froute))).2, vis) := by
+       (List.foldl (enq (decide ((count.lookup fty).getD 0 > 1))) (next, nextCount) (l.flatMap (childOut ts u froute))).1,
+       (List.foldl (enq (decide ((count.lookup fty).getD 0 > 1))) (next, nextCount) (l.flatMap (childOut ts u froute))).2, vis) := by
   intro l
   induction l with
   | nil => intro fields next nextCount vis; simp [dupl_nil]
@@ -229,8 +231,8 @@ theorem mem_childrenOf (ts : Types) (u : UTab) (c : Node) (n : Node) (h : n ∈ 
 
 /-! ### membership through one level and through `bfs` -/
 
-theorem mem_foldl_enq : ∀ (L : List Node) (q : List Node × List (Nat × Nat)) (n : Node),
-    n ∈ (L.foldl enq q).1 → n ∈ q.1 ∨ n ∈ L := by
+theorem mem_foldl_enq (d : Bool) : ∀ (L : List Node) (q : List Node × List (Nat × Nat)) (n : Node),
+    n ∈ (L.foldl (enq d) q).1 → n ∈ q.1 ∨ n ∈ L := by
   intro L
   induction L with
   | nil => intro q n h; exact Or.inl h
@@ -275,7 +277,7 @@ theorem mem_foldl_outer (ts : Types) (u : UTab) (count : List (Nat × Nat)) :
         split at h
         · exact Or.inl h
         · simp only at h
-          rcases mem_foldl_enq _ _ n h with h | h
+          rcases mem_foldl_enq _ _ _ n h with h | h
           · exact Or.inl h
           · exact Or.inr ⟨c, by simp, h⟩
       · exact Or.inr ⟨c', by simp [hc'], h⟩
